@@ -334,8 +334,12 @@ def oracle(sc, r, want=("C07", "C08", "C09")):
                     if o["who"] == "main":
                         bad.append(("C09", "a connection was opened for a send that started after shutdown", ""))
         for o in ops:
-            if o["op"]["op"] == "shutdown" and (o["t1"] - o["t0"]) > 1500000 and not sc.get("slow_quit"):
+            if o["op"]["op"] == "shutdown" and (o["t1"] - o["t0"]) > 1000000 and not sc.get("slow_quit"):
                 bad.append(("C09", "shutdown did not return promptly", "%.0f ms" % ((o["t1"] - o["t0"]) / 1000.0)))
+    live = [e for e in log if e[1] == "C" and e[2] == "census_live"]
+    if live and not live[0][3]["all_closed"]:
+        # a server that never answers QUIT keeps its socket until the read timeout: not the case in these scenarios
+        bad.append(("C09", "sockets still open 2.5 s after the last handle to the transport was dropped (runtime still alive)", json.dumps(live[0][3])))
     census = [e for e in log if e[1] == "C" and e[2] == "census"]
     if census:
         cz = census[0][3]
@@ -451,14 +455,14 @@ def gen_maintenance(rng, kind, n):
             # sends park connections 0..; after the timeout they must be closed and the set empty
             ns = rng.randint(1, min(3, mx))
             sc["senders"] = [[send_op("t%d" % s, rng)] for s in range(ns)]
-            sc["after"] = [{"op": "wait_closed", "conns": list(range(ns)), "ms": 4000, "why": "connections idle longer than idle_timeout are closed"},
+            sc["after"] = [{"op": "wait_closed", "conns": "accepted-so-far", "ms": 4000, "why": "connections idle longer than idle_timeout are closed"},
                            {"op": "wait_idle", "n": 0, "ms": 4000, "why": "expired connections leave the idle set"},
                            send_op("again", rng), {"op": "debug"}]
         else:
             sc["senders"] = []
             sc["after"] = [{"op": "wait_idle", "n": target, "ms": 4000, "why": "the maintenance pass tops the idle set up to min(min_idle, max_size)"},
                            send_op("u0", rng), send_op("u1", rng),
-                           {"op": "wait_closed", "conns": [0], "ms": 4000, "why": "connections idle longer than idle_timeout are closed"},
+                           {"op": "wait_closed", "conns": "accepted-so-far", "ms": 4000, "why": "connections idle longer than idle_timeout are closed"},
                            {"op": "wait_idle", "n": target, "ms": 4000, "why": "topped up again after expiry"}, {"op": "debug"}]
         sc["family"] = "maintenance"
         out.append(sc)
@@ -472,7 +476,7 @@ def gen_shutdown(rng, kind, n):
         mx = rng.randint(1, 3)
         pool = {"max": mx, "min_idle": rng.choice([0, 0, 1, 2]), "idle_ms": rng.choice([60000, 60000, 50])}
         sc = base(rng, kind, pool)
-        variant = k % 4
+        variant = k % 5 if k % 10 == 4 else k % 4
         ns = rng.randint(1, 3)
         for s in range(ns):
             ops = [send_op("s%d-%d" % (s, j), rng) for j in range(rng.randint(1, 4))]
@@ -487,6 +491,14 @@ def gen_shutdown(rng, kind, n):
         elif variant == 2:
             # quiescent shutdown with idle connections, then use after shutdown
             sc["after"] = [{"op": "debug"}, {"op": "shutdown"}, {"op": "debug"}, send_op("late", rng), {"op": "test"}]
+        elif variant == 4:
+            # the maintenance worker is busy (its connect waits 1.4 s for the greeting) while shutdown is called twice
+            pool["min_idle"] = rng.choice([1, 2]); pool["idle_ms"] = 60000
+            sc["timeout_ms"] = 3000
+            sc["senders"] = []
+            sc["faults"] = [{"conn": 0, "cmd": "GREET", "nth": 0, "act": "stall", "ms": 1400}]
+            sc["probe_delay_us"] = 0
+            sc["after"] = [{"op": "sleep", "ms": rng.choice([5, 20])}, {"op": "shutdown"}, send_op("late", rng), {"op": "shutdown"}, {"op": "debug"}]
         else:
             # no shutdown at all: drop the transport with idle connections and a sleeping worker
             sc["after"] = [{"op": "debug"}, {"op": "sleep", "ms": rng.choice([0, 5, 60])}]
